@@ -83,7 +83,12 @@ class C08(Spec):
     driver = 'map'
     lib_srcs = ['rbtree.c', 'bintree.c']
     driver_extra = '-I%s/src -Wl,--wrap=malloc,--wrap=realloc,--wrap=free,--wrap=calloc'
-    header_words = ('fail', 'failfrom', 'cmpmod', 'cmpmode', 'ptrrep', 'nestclear')
+    header_words = ('fail', 'failfrom', 'cmpmod', 'cmpmode', 'ptrrep', 'nestclear', 'cmpnest')
+
+    def more_variants(self, cases, tier, seed):
+        # every third case once more with a comparison function that looks things up in another map before it answers
+        return [Case(c.name + 'q', c.header + ['cmpnest 1'], c.ops, c.origin) for c in cases[1::3]
+                if not any(h.startswith('cmpnest') for h in c.header)]
     rule = ('cases = corpus + one case per edge of the breadth-first closure of the Coq model over a small key '
             'universe (incl. allocation failures) + seeded random histories; non-trivial = at least two completed '
             'operations; distinct = distinct (header, operations) text')
@@ -249,6 +254,8 @@ def c15_part(clear_cases):
             cases, st = clear_cases(C08(), tier, refill)
             # every second case also with a clear callback that clears another (empty) map before returning
             cases += [Case(c.name + 'n', c.header + ['nestclear 1'], c.ops, c.origin) for c in cases[::2]]
+            cases += [Case(c.name + 'q', c.header + ['cmpnest 1'], c.ops, c.origin) for c in cases[1::3]
+                      if not any(h.startswith('cmpnest') for h in c.header)]
             return cases, st
 
         def random_cases(self, tier, seed):
